@@ -142,6 +142,11 @@ def finish(out: Outcome, level, checker_cmd, explanation=None, extra_cov=None):
             print(f"KNOWN-FINDING: property={out.prop} {hit['what']}")
         else:
             new_viol.append(v)
+    # an obligation that fails exactly as a listed known finding is reported (KNOWN-FINDING line, evidence key below) and is
+    # not part of the proof claim: it is neither counted as an obligation of this run nor as discharged
+    known_keys = [k["key"] for k in listed]
+    kf_obs = [o for o in out.obligations if not o["ok"] and any(k in o["name"] for k in known_keys)]
+    out.obligations = [o for o in out.obligations if o not in kf_obs]
     n_ob = len(out.obligations)
     n_ok = sum(1 for o in out.obligations if o["ok"])
     cov = {
@@ -165,7 +170,8 @@ def finish(out: Outcome, level, checker_cmd, explanation=None, extra_cov=None):
         cov.update(extra_cov)
     ev = {"property_id": out.prop, "tier": out.tier, "seed": out.seed, "level": level, "coverage": cov,
           "assumptions": ASSUMPTIONS, "wall_s": round(time.time() - out.t0, 2), "violations": len(new_viol),
-          "known_findings_reported": len(out.violations) - len(new_viol)}
+          "known_findings_reported": len(out.violations) - len(new_viol),
+          "obligations_failing_as_known_findings": [o["name"] for o in kf_obs]}
     os.makedirs(os.path.join(VERIF, "evidence"), exist_ok=True)
     with open(os.path.join(VERIF, "evidence", f"{out.prop}.json"), "w") as f:
         json.dump(ev, f, indent=1)
@@ -233,6 +239,22 @@ def run_x(out: Outcome, programs, prop, max_cex=8, nshards=None, timeout_s=600, 
     ann0 = xrun.annotate(work, progs, dumps, {})          # inventory only (no contracts) to learn what exists
     sel = {}
     missing_fn = []
+    api_items = []
+    if prop in ("C07", "C10"):
+        from . import inv as INV
+        bad_pids = set()
+        for p in progs:
+            for e in p.enums:
+                if e.name not in ann0:
+                    continue
+                for name, ok, detail in INV.enum_obligations(e, ann0[e.name][1]):
+                    ob = f"{prop}/api/{p.pid}/{name}"
+                    out.add_ob(ob, "inventory", "annotator inventory of the real expansion vs. declaration table", ok)
+                    if not ok:
+                        bad_pids.add(p.pid)
+                        api_items.append({"obligation": ob, "detail": detail, "program_text": p.decl_text(), "inputs": None, "src": None,
+                                          "verifier_output": {"inventory": detail}})
+        progs = [p for p in progs if p.pid not in bad_pids]   # their contracts would not even type-check
     for p in progs:
         hs = C.select(p, C.program_harnesses(p, want_history=history), prop)
         have = set()
@@ -256,6 +278,8 @@ def run_x(out: Outcome, programs, prop, max_cex=8, nshards=None, timeout_s=600, 
     for t, (_, inv) in ann.items():
         if inv["unmatched_contracts"]:
             raise Infra(f"contracts could not be attached in {t}: {inv['unmatched_contracts'][:3]}")
+    if api_items and not collect_only:
+        report_violations(out, api_items[:6], kind="inv")
     n = sum(len(v) for v in sel.values())
     if n == 0:
         return []
